@@ -28,6 +28,15 @@ def gen_sequences(ctx):
         seqs.append(['ehlo', 'mail'] + list(tail)); ctx.count('exhaustive-core-tails-len-%d-behind-accepted-sender' % k)
     for tail in itertools.product(CORE, repeat=k):
         seqs.append(list(tail)); ctx.count('exhaustive-core-len-%d' % k)
+    # a transaction that is given up, then a complete one: for either kind of sender (the empty sender has its own
+    # paths: seeded change c08-m9 skipped freedata() on RSET when mailfrom.len is 0) and every way of giving up
+    for s1 in ('mail', 'mail_bounce'):
+        for r1 in (['rcpt_alice'], ['rcpt_alice', 'rcpt_carol'], ['rcpt_bob'], []):
+            for giveup in (['rset'], ['ehlo'], ['helo'], ['rset', 'rset'], ['data_arg', 'rset'], ['garbage', 'rset'], ['rset', 'ehlo']):
+                for s2 in ('mail', 'mail_bounce'):
+                    for r2 in (['rcpt_carol'], ['rcpt_alice', 'rcpt_carol']):
+                        seqs.append(['ehlo', s1] + r1 + giveup + [s2] + r2 + ['data', 'noop'])
+                        ctx.count('given-up-then-complete')
     for _ in range(1500 if ctx.quick() else 20000):
         seqs.append([rng.choice(names) for _ in range(rng.randrange(3, 14))]); ctx.count('random-vocabulary')
     for _ in range(1500 if ctx.quick() else 20000):
